@@ -22,6 +22,6 @@ out = ['# Seeded changes and what detects them', '',
  '| seed | property | change | needs | quick check of its property (seeds 0,1,2) | history |', '|---|---|---|---|---|---|'] + rows
 out += ['', 'rc=1 = the check exits 1 with a `VIOLATION property=<id> replay=<path>` line whose replay file holds a concrete failing input found on the real code.',
  'Waves 1 and 2 (C01..C20): one change per property. Wave 3 (Cxx-w3): preferably two cooperating sites or state carried across calls. Wave 4 (Cxx-w4): unusual',
- 'but legal argument types and spellings, shared objects, boundary values, call order.']
+ 'but legal argument types and spellings, shared objects, boundary values, call order. Wave 5 (Cxx-w5): changes meant to survive a randomized differential test (coincidence of several conditions, size thresholds, less common entry points).']
 open(os.path.join(S, 'RESULTS.md'), 'w').write('\n'.join(out) + '\n')
 print(len(rows), 'rows')
